@@ -345,6 +345,8 @@ def run(ctx):
     check_wrapping_search_steps(ctx, F)
     check_models(ctx, F)
     check_state_ctor_threshold(ctx, F)
+    import props.C05 as c05
+    c05.check_conservative_preskip(ctx, F)      # the lazily quantised model returns the symbol whose bin contains the quantile
     ctx.assume('models honour DecoderModel: quantile_function is total for quantile < 2^PRECISION')
     return {
         'level': 'other',
